@@ -31,6 +31,7 @@ fn main() {
         "C05" => props::recovery::c05(),
         "C06" => props::spectator::c06(),
         "C07" => props::drop::c07(),
+        "C08" => props::malformed::c08(),
         "C12" => props::lifecycle_check::c12(),
         "C13" => props::synctest::c13(),
         "C14" => props::codec::c14(),
